@@ -16,6 +16,8 @@
 (*         removing a non-member raises and changes nothing)               *)
 (*   "C03" follow : (post, res) must be one of the outcomes Post(pre, c)   *)
 (*   "C19" adopt + invariant : LawsSym; every laws assignment succeeds     *)
+(*   "C09" adopt: the real post-state of every unlink() joins the pair by   *)
+(*         nothing and every other pair by what joined it before           *)
 (***************************************************************************)
 EXTENDS EGStructure, Json, IOUtils, TLCExt
 
@@ -77,11 +79,23 @@ FailC10(r) ==
   \cup (IF r.res.err # "" THEN {} ELSE
           Tag(r.post = r.pre, "CopyIsomorphic") \cup Tag(StructInv(r.post), "CopyWellFormed"))
 
+\* C09, last clause: after unlink(a, b) nothing joins a and b any more (so find_links(a, b, ..) is empty for every
+\* setting), while every other pair is joined by exactly the links that joined it before
+QDomAll(S) == \A o \in BornObj(S) : QDom(S, o)
+FailC09(r) ==
+  IF r.c.op # "unlink" \/ Raised(r) \/ ~Judgeable(r) \/ ~QDomAll(r.pre) THEN {}
+  ELSE LET a == r.c.a[1] b == r.c.a[2] IN
+       IF ~QDomAll(r.post) THEN {"UnlinkLeavesHalfAttachedLinks"}
+       ELSE Tag(Joining(r.post, a, b) = {} /\ Joining(r.post, b, a) = {}, "UnlinkEmptiesThePair")
+            \cup Tag(\A x, y \in BornObj(r.pre) : ({x, y} # {a, b}) => Joining(r.post, x, y) = Joining(r.pre, x, y),
+                     "OtherPairsStillJoined")
+
 Fails(r) == CASE Prop = "C01" -> FailC01(r)
               [] Prop = "C02" -> FailC02(r)
               [] Prop = "C03" -> FailC03(r)
               [] Prop = "C19" -> FailC19(r)
               [] Prop = "C10" -> FailC10(r)
+              [] Prop = "C09" -> FailC09(r)
 
 \* what the specification expected, for the replay file (first allowed outcome)
 Expected(r) == IF Prop = "C03" /\ Judgeable(r)
